@@ -8,6 +8,7 @@ import SlotVerif.Driver.ProgDrv
 import SlotVerif.Driver.SnapDrv
 import SlotVerif.Driver.EvDrv
 import SlotVerif.Driver.RunnerDrv
+import SlotVerif.Driver.ProofDrv
 /-! `svdriver`: reads one case per line `<suite> <body>`, prints one answer line per case. -/
 open SV.Drv
 
@@ -23,6 +24,7 @@ def dispatch (line : String) : String :=
     | "parse" => parseRun body
     | "grp" => grpRun body
     | "eg" => egRun body
+    | "expl" => explRun body
     | "prog" => progRun body
     | "snap" => snapRun body
     | "ev" => evRun body
